@@ -150,23 +150,26 @@ Theorem c05_copy_value_refuted :
 Proof. exact copy_value_refuted. Qed.
 
 (** Hash of frozen values (round 4).  [hash_kinds] = what hash(obj) is for each concrete class, read from the source.
-    For every table that passes [hash_table_ok] (mutable classes unhashable; a hashable class is frozen and its hash is
-    a function of ALL of its slots and of nothing else; FrozenVec and FrozenAngle hashable): *)
+    For every table that passes [hash_table_ok] (a FROZEN class is unhashable or its hash is a function of ALL of its slots
+    and of nothing else - not of the object's identity; round 5: the property is silent about the hash of a value that
+    can change, so rows of mutable classes are not constrained; "mutable classes unhashable, FrozenVec/FrozenAngle
+    hashable" is the separate predicate [hash_conventions], an observation of the check and the premise of
+    c05_hashable_is_frozen only): *)
 
-(** equal values hash equal, wherever the two objects live (a copy, a pickle, thaw().freeze() of a dictionary key finds it) *)
+(** equal frozen values hash equal, wherever the two objects live (a copy, a pickle, thaw().freeze() of a dictionary key finds it) *)
 Theorem c05_hash_same_value : forall (V X H : Type) (get : V -> string -> X) (hf : list X -> H) (ident : nat -> H) rows,
-  hash_table_ok rows = true -> forall c a b i j, same_value V X get c a b ->
+  hash_table_ok rows = true -> forall c a b i j, frozen_class c = true -> same_value V X get c a b ->
   hash_of V X H get hf ident rows i (c, a) = hash_of V X H get hf ident rows j (c, b).
 Proof. exact hash_same_value. Qed.
 
 (** the hash ignores no component *)
 Theorem c05_hash_reads_every_slot : forall rows, hash_table_ok rows = true ->
-  forall c l, FrozenHash.lookup c rows = Some (HSlots l) -> forall s, In s (family_slots c) -> In s l.
+  forall c l, frozen_class c = true -> FrozenHash.lookup c rows = Some (HSlots l) -> forall s, In s (family_slots c) -> In s l.
 Proof. exact hash_reads_every_slot. Qed.
 
-(** only frozen classes are hashable *)
+(** only frozen classes are hashable - a convention of today's source ([hash_conventions]), not a clause of C05 *)
 Theorem c05_hashable_is_frozen : forall (V X H : Type) (get : V -> string -> X) (hf : list X -> H) (ident : nat -> H) rows,
-  hash_table_ok rows = true -> forall c i v h, hash_of V X H get hf ident rows i (c, v) = Some h -> frozen_class c = true.
+  hash_conventions rows = true -> forall c i v h, hash_of V X H get hf ident rows i (c, v) = Some h -> frozen_class c = true.
 Proof. exact hashable_is_frozen. Qed.
 
 (** composed with the frame theorem: the hash of a frozen object is the same after EVERY history of public calls *)
@@ -462,6 +465,6 @@ Proof. exact vec_text_roundtrip. Qed.
     clauses: finite operands ([finite_inputs], [supplied_ok]), float() correctly rounded ([py_float]), public calls only
     ([good_history]). *)
 Theorem c05_property : forall s, c05_source_ok s = true ->
-  whole_range s /\ whole_ctor s /\ whole_frozen s /\ whole_independent s /\ whole_hash s /\ whole_copy_value s /\
+  whole_range s /\ whole_ctor s /\ whole_frozen s /\ whole_independent s /\ whole_hash s /\ whole_eq s /\ whole_copy_value s /\
   whole_text_shape s /\ whole_angle_roundtrip s /\ whole_vec_roundtrip s /\ whole_format_spec s.
 Proof. exact c05_whole. Qed.
